@@ -386,3 +386,62 @@ Proof.
   intros Hb Hr. rewrite read_blocks_concat; [reflexivity|exact Hr|exact Hb|].
   rewrite skipn_length. lia.
 Qed.
+
+(* ---- rename: "the destination lies inside the source" is a test on path COMPONENTS ----
+   (`destination.is_relative_to(source)`; not a test on the characters of the two path strings: a sibling
+   whose NAME merely extends the source's name -- report -> report.bak, d -> d2 -- is not inside it) *)
+Lemma name_ext_neq (n s : name) : s <> [] -> name_eqb n (n ++ s) = false.
+Proof.
+  intro Hs. apply name_eqb_neq. intro E.
+  assert (L : length n = length (n ++ s)) by (rewrite <- E; reflexivity).
+  rewrite app_length in L. destruct s as [|c s]; [congruence|cbn in L; lia].
+Qed.
+
+Lemma is_prefix_same_parent ap (x y : name) rest :
+  is_prefix (ap ++ [x]) (ap ++ y :: rest) = name_eqb x y.
+Proof.
+  induction ap as [|z ap IH]; cbn.
+  - destruct (name_eqb x y); reflexivity.
+  - rewrite name_eqb_refl. exact IH.
+Qed.
+
+(* a path whose last-but-k component extends the source's last name by a non-empty suffix is outside the source,
+   at every depth and whatever follows *)
+Theorem sibling_extension_not_inside ap (an s : name) rest :
+  s <> [] -> is_prefix (ap ++ [an]) (ap ++ (an ++ s) :: rest) = false.
+Proof. intro Hs. rewrite is_prefix_same_parent. apply name_ext_neq. exact Hs. Qed.
+
+(* and the other way round: the shorter name is not inside the longer one *)
+Theorem sibling_truncation_not_inside ap (an s : name) rest :
+  s <> [] -> is_prefix (ap ++ [an ++ s]) (ap ++ an :: rest) = false.
+Proof.
+  intro Hs. rewrite is_prefix_same_parent. apply name_eqb_neq. intro E. symmetry in E.
+  apply name_eqb_eq in E. rewrite name_ext_neq in E by exact Hs. discriminate.
+Qed.
+
+(* MemoryPathIO.rename of an existing entry (file or directory, any depth) to a sibling name that extends the old
+   name SUCCEEDS and moves the entry -- the same outcome and tree as on the file-system backends *)
+Theorem m_rename_sibling_extension t ap (an s : name) sn :
+  s <> [] -> lookup (ap ++ [an]) t = Some sn ->
+  m_run t (Rename (ap ++ [an]) (ap ++ [an ++ s]))
+  = (Ok VUnit, upd ap (on_dir (put (an ++ s) sn)) (upd ap (on_dir (remove_first an)) t)).
+Proof.
+  intros Hs L. cbn [m_run]. unfold m_rename, get_node. rewrite L.
+  assert (Hne : path_eqb (ap ++ [an]) (ap ++ [an ++ s]) = false).
+  { destruct (path_eqb (ap ++ [an]) (ap ++ [an ++ s])) eqn:E; [|reflexivity].
+    apply path_eqb_eq in E. apply app_inv_head in E. inversion E as [E1].
+    pose proof (name_ext_neq an s Hs) as N. apply name_eqb_neq in N. contradiction. }
+  rewrite Hne, !unsnoc_snoc.
+  rewrite lookup_app in L. destruct (lookup ap t) as [[d|es]|] eqn:Lp; cbn in L; try discriminate.
+  rewrite (sibling_extension_not_inside ap an s [] Hs). reflexivity.
+Qed.
+
+Theorem rename_sibling_extension_agree t ap (an s : name) sn :
+  s <> [] -> lookup (ap ++ [an]) t = Some sn -> lookup (ap ++ [an ++ s]) t = None ->
+  step_agree (m_run t (Rename (ap ++ [an]) (ap ++ [an ++ s]))) (p_run t (Rename (ap ++ [an]) (ap ++ [an ++ s])))
+  /\ fst (m_run t (Rename (ap ++ [an]) (ap ++ [an ++ s]))) = Ok VUnit.
+Proof.
+  intros Hs L N. split.
+  - apply rename_agree; [destruct ap; discriminate|exact N].
+  - rewrite (m_rename_sibling_extension t ap an s sn Hs L). reflexivity.
+Qed.
